@@ -349,8 +349,33 @@ func (w *World) observeProofs(n *Node, st *State, seed uint64) (out []obs) {
 	if w.opt.Property == "C02" || w.opt.Property == "C06" {
 		nreq = 4
 	}
-	for q := 0; q < nreq; q++ {
-		sub := w.pickSubset(r, st, pool)
+	var exhaustive [][]H
+	if w.opt.Property == "C02" && len(pool) <= 7 && r.Pct(20) {
+		// small state: every non-empty subset of the tracked live leaves, in pool
+		// order and (two or more leaves) in a seeded order as well
+		w.stats.Reach["prove_all_subsets_of_state"]++
+		for mask := 1; mask < 1<<uint(len(pool)); mask++ {
+			var sub []H
+			for i, h := range pool {
+				if mask&(1<<uint(i)) != 0 {
+					sub = append(sub, h)
+				}
+			}
+			exhaustive = append(exhaustive, sub)
+			if len(sub) >= 2 {
+				s2 := append([]H(nil), sub...)
+				r.Shuffle(len(s2), func(i, j int) { s2[i], s2[j] = s2[j], s2[i] })
+				exhaustive = append(exhaustive, s2)
+			}
+		}
+	}
+	for q := 0; q < nreq+len(exhaustive); q++ {
+		var sub []H
+		if q < nreq {
+			sub = w.pickSubset(r, st, pool)
+		} else {
+			sub = exhaustive[q-nreq]
+		}
 		w.count("prove")
 		sub = padH(sub)
 		var got u.Proof
